@@ -11,11 +11,11 @@
    Full statement (all four calling conventions):
      forall V vc pth s (c : call V), wf_sig s = true -> wf_path pth s = true -> wf_entry vc pth = true ->
        keys_nodup (c_kws c) = true -> erase s (call_cy vc pth s c) = erase s (call_py s c).
-   Proved below (a) for every convention except a wrapper with named parameters entered with a kwds
-   *dict* (C24_bind_eq_partial: kwnames-tuple wrappers, METH_NOARGS, METH_O, and the star-arg-only
-   wrappers under both conventions), and (b) for the remaining case reduced to one explicit obligation
-   on the two dict loops (C24_bind_eq_given_dict_loops): __Pyx_ParseKeywordDict/DictToDict agree with
-   the reference loop up to the error kind.  That obligation is only tested (correspondence run). *)
+   Proved in full as C24_bind_eq (last theorem).  The route: (a) every convention except a wrapper with
+   named parameters entered with a kwds *dict* (C24_bind_eq_partial), (b) the remaining case reduced to
+   one obligation on the two dict loops (C24_bind_eq_given_dict_loops), (c) that obligation discharged:
+   C24_dict_to_dict_loop (__Pyx_ParseKeywordDictToDict) and C24_dict_loop (__Pyx_ParseKeywordDict, whose
+   counting early exit needs a pigeonhole argument), in Proof/P_ArgBindDict.v. *)
 From Coq Require Import List Bool Arith.
 From CyVerif Require Import Model.M_ArgBind Proof.P_ArgBind Proof.P_ArgBindDict.
 Import ListNotations.
@@ -116,6 +116,24 @@ Example C24_starstar_nonvacuous :
   s_starstar s && s_kwused s = true /\
   call_cy false PDict s c = Bound [(1, Given 10); (2, Given 22); (3, Given 20)] None (Some [(mkKey 9 KSub, 21)]).
 Proof. vm_compute. repeat split. Qed.
+
+(* __Pyx_ParseKeywordDict (kwds dict, no **kwargs to fill): its counting early exit `extracted < nkw`
+   is sound by a pigeonhole argument (distinct names hit by keys are at most as many as the keys, and as
+   many exactly when every key matches a name at or after [first]) *)
+Theorem C24_dict_loop : forall V (kws : list (key * V)) names first off ignore values,
+  NoDup names -> all_str kws -> keys_nodup kws = true -> first <= length names ->
+  sim (parse_keywords PDict kws names first off ignore values None)
+      (parse_ref kws names first off ignore values None).
+Proof. exact parser_ok_dict_none. Qed.
+Print Assumptions C24_dict_loop.
+
+(* THE FULL STATEMENT: every well-formed signature, every calling convention (kwnames tuple, kwds dict,
+   METH_NOARGS, METH_O), every call with pairwise distinct keys - no obligation left *)
+Theorem C24_bind_eq : forall V vc pth s (c : call V),
+  wf_sig s = true -> wf_path pth s = true -> wf_entry vc pth = true -> keys_nodup (c_kws c) = true ->
+  erase s (call_cy vc pth s c) = erase s (call_py s c).
+Proof. exact call_eq_full. Qed.
+Print Assumptions C24_bind_eq.
 
 Example C24_nonvacuous :
   let s := mkSig [mkParam 1 false] [mkParam 2 false; mkParam 3 true] true [mkParam 4 true; mkParam 5 false] true true in
